@@ -188,15 +188,18 @@ PROPS["C09"] = {
 
 PROPS["C01"] = {
     "level": "model_checking",
-    "level_text": 'P(shape): for every message shape of the catalogue (4 payload kinds, both byte orders, with/without storage header, optional-field combinations, every one of the 38 argument layouts plus length variants) the solver decides, for all values of all numeric fields, raw data and trailing bytes, that parsing the reference encoding followed by the tail yields the message field for field (floats bit for bit) and exactly the tail. Together with W(shape) (writer == reference bytes, C02) this is the serialise-then-parse identity by substitution of equal byte strings.',
-    "level_note": 'Shapes are enumerated, not symbolic: control bytes (HTYP, MSIN, NOAR, LEN, type info, length prefixes) and id/text contents are literal per harness. Round trip is composed from two solver-checked halves because the one-harness round trip does not finish.',
-    "functions": ['parse::dlt_message', 'parse::dlt_message_intern', 'parse::dlt_standard_header', 'parse::dlt_extended_header', 'parse::dlt_storage_header', 'parse::dlt_payload', 'parse::dlt_argument::<BE|LE>', 'parse::dlt_zero_terminated_string_intern'],
+    "level_text": 'RT(shape): for every message shape of the catalogue the solver decides IN ONE QUERY, for all values of all numeric fields, raw data and trailing bytes, that parsing Message::as_bytes(m) followed by the tail yields m field for field (floats bit for bit) and exactly the tail as remainder - the property as stated, on the crate\'s own bytes. In addition P(shape): parsing the independent reference encoding ++ tail yields the message and the tail (with W(shape), writer == reference bytes, in C02 this gives the identity a second time by substitution, and covers the string layouts, for which the writer cannot be executed symbolically).',
+    "level_note": 'Shapes are enumerated, not symbolic: control bytes (HTYP, MSIN, NOAR, LEN, type info, length prefixes) and id/text contents are literal per harness (texts contain a two-byte UTF-8 character). Shapes: 4 payload kinds, both byte orders, with/without storage header, optional-field combinations, zero-argument verbose / network-trace payloads, every one of the 38 argument layouts plus length variants (round trip: all non-string layouts).',
+    "functions": ['Message::as_bytes', 'StandardHeader::as_bytes', 'ExtendedHeader::as_bytes', 'StorageHeader::as_bytes', 'PayloadContent::as_bytes', 'Argument::as_bytes::<BE|LE>', 'parse::dlt_message', 'parse::dlt_message_intern', 'parse::dlt_standard_header', 'parse::dlt_extended_header', 'parse::dlt_storage_header', 'parse::dlt_payload', 'parse::dlt_argument::<BE|LE>', 'parse::dlt_zero_terminated_string_intern'],
     "bounds": 'messages <= 96 bytes, <= 2 arguments, names/units/strings/raw 0..3 bytes, tail 1..3 symbolic bytes',
     "outside": 'longer strings, > 2 arguments, total length near 65535, symbolic id/text contents (C19), symbolic control bytes (C14, c02d)',
     "assumptions": COMMON_ASSUME + ['std::fmt::format stubbed (messages not compared)', 'core::str::from_utf8 replaced by a byte-wise model checked against std (c19_utf8_model_vs_std)', 'forward_to_next_storage_header replaced by its specification (first occurrence) in whole-message storage-mode harnesses; the real function is checked against that specification in C06', 'ids, names, units and string contents are literals in whole-message harnesses (whether a byte is NUL is control for the parser); arbitrary contents are decided in C19 / c02d'],
     "trusted_base": ['reference encoder kani/src/refcodec.rs + shapes.rs (reading of the AUTOSAR layout)'],
     "harnesses": [H("c01::" + n, "quick", 900) for n in ["c01_p_nonverbose_min", "c01_p_nonverbose_ext_storage_be", "c01_p_control_le",
         "c01_p_verbose_bool_le", "c01_p_verbose_u32_named_be_storage", "c01_p_verbose_string_le", "c01_p_nettrace_le", "c01_p_nettrace_be", "c01_p_nettrace_empty", "c01_p_verbose_empty"]]
+                 + [H("c01::" + n, "quick", 900, what="serialise-then-parse identity in one query") for n in ["c01_rt_nonverbose_min", "c01_rt_control_le", "c01_rt_verbose_bool_le", "c01_rt_nettrace_be"]]
+                 + [H("c01::c01_rt_verbose_u32_named_be_storage", "thorough", 3600)]
+                 + [H(e["name"], e["tier"], 900, what="serialise-then-parse identity in one query, one argument layout") for e in _json.load(open(_os.path.join(_os.path.dirname(_os.path.abspath(__file__)), "catalogue.json")))["rt_arg"]]
                  + [H("c01::c01_p_verbose_two_args_u8_bool", "thorough", 3600, mem_gb=40), H("c01::c01_p_nettrace_two_slices", "thorough", 3600, mem_gb=40)]
                  + [H("c14::c14_msin_via_extended_header_parse", "quick", 300, what="every MSIN code (incl. reserved message types) is accepted and decoded by the extended-header parser"),
                     H("c14::c14_msin_via_extended_header_write", "quick", 300, what="every message type value is written as its MSIN code")]
@@ -212,8 +215,8 @@ PROPS["C06"] = {
     "outside": 'longer inputs (vectorised paths of memchr for >= 16 bytes are trusted)',
     "assumptions": COMMON_ASSUME + ['std::fmt::format stubbed (messages not compared)', 'core::str::from_utf8 replaced by a byte-wise model checked against std (c19_utf8_model_vs_std)', 'core::arch::x86_64::__cpuid / __cpuid_count return zeros', 'ids, names, units and string contents are literals in whole-message harnesses (whether a byte is NUL is control for the parser); arbitrary contents are decided in C19 / c02d'],
     "trusted_base": ['memchr for haystacks > 8 bytes'],
-    "harnesses": [H("c06::" + n, "quick", 900) for n in ["c06_search_real_memmem_8", "c06_junk_1", "c06_junk_2", "c06_junk_3", "c06_junk_partial_d",
-                  "c06_junk_partial_dlt", "c06_junk_partial_ddl", "c06_stream_with_junk_between"]],
+    "harnesses": [H("c06::" + n, "quick", 900) for n in ["c06_search_real_memmem_8", "c06_search_real_5", "c06_search_real_6", "c06_search_real_partial_prefixes", "c06_junk_1", "c06_junk_2", "c06_junk_3", "c06_junk_partial_d",
+                  "c06_junk_partial_dlt", "c06_junk_partial_ddl", "c06_junk_3_filtered_out", "c06_stream_with_junk_between"]],
 }
 
 
@@ -224,15 +227,18 @@ _wq = ["c02w_storage_header_id4", "c02w_storage_header_id1", "c02w_standard_head
 _wt = ["c02w_storage_header_id0", "c02w_storage_header_id3", "c02w_standard_header_c1", "c02w_standard_header_c3", "c02w_standard_header_c4",
        "c02w_standard_header_c6", "c02w_extended_header_id0", "c02w_extended_header_id3"]
 _w = _wq + ["c02w_payload_nonverbose_control", "c02w_payload_nettrace_le", "c02w_payload_nettrace_be"]
+_wmsg = ["c02w_msg_nonverbose_min", "c02w_msg_nonverbose_ext_storage_be", "c02w_msg_control_le", "c02w_msg_nettrace_be", "c02w_msg_nettrace_storage_le", "c02w_msg_nettrace_empty", "c02w_msg_verbose_f64_all_le", "c02w_msg_verbose_raw_be", "c02w_msg_verbose_sfix64_v_storage",
+         "c02w_msg_verbose_bool_le", "c02w_msg_verbose_u32_named_be_storage", "c02w_msg_verbose_empty"]
+_wmsg_q = ["c02w_msg_nonverbose_ext_storage_be", "c02w_msg_control_le", "c02w_msg_nettrace_be", "c02w_msg_nettrace_storage_le", "c02w_msg_verbose_bool_le", "c02w_msg_verbose_sfix64_v_storage", "c02w_msg_verbose_empty"]
 _d = []
 _dt = ["c02d_standard_header_full_length", "c02d_extended_header_full_length", "c02d_standard_header_all_bytes", "c02d_extended_header_all_bytes", "c02d_storage_header_fields"]
 PROPS["C02"] = {
     "level": "model_checking",
-    "level_text": "Encoding: every writer unit (storage / standard / extended header, each argument layout in both byte orders, payload kinds) is compared byte for byte with an independently written reference encoder for all field values. Decoding: header parsers on fully symbolic bytes (all 256 HTYP, all 256 MSIN, arbitrary id bytes, symbolic available length) against the reference decoder; message / filtered / incomplete / reject verdict and consumed length per shape and declared-length class (C04's harnesses carry the reference verdict); all 2^32 type-info words in C14.",
+    "level_text": "Encoding: Message::as_bytes of whole messages (12 message shapes + every non-string argument layout as the single argument of a message) and every writer unit (storage / standard / extended header, each argument layout in both byte orders, payload kinds) are compared byte for byte with an independently written reference encoder for all field values. Decoding: header parsers on fully symbolic bytes (all 256 HTYP, all 256 MSIN, arbitrary id bytes, symbolic available length) against the reference decoder; message / filtered / incomplete / reject verdict and consumed length per shape and declared-length class (C04's harnesses carry the reference verdict); all 2^32 type-info words in C14.",
     "level_note": "Agreement on arbitrary byte strings is decided per unit and per shape, not for whole messages with symbolic control (that does not finish). The crate's canonical bool type info has TYLE=0 (TYLE=1..15 accepted on decode).",
     "functions": ['StorageHeader::as_bytes', 'StandardHeader::as_bytes', 'ExtendedHeader::as_bytes', 'Argument::as_bytes::<BE|LE>', 'Argument::len', 'PayloadContent::as_bytes', 'TypeInfo::as_bytes', 'parse::dlt_standard_header', 'parse::dlt_extended_header', 'parse::dlt_storage_header'],
     "bounds": 'header units: 16 / 12 / 18 symbolic bytes; argument layouts of the catalogue (80 shapes); payloads <= 3 slices / 2 arguments',
-    "outside": 'whole-message writer (Message::as_bytes) beyond the smallest shape: it is the concatenation storage ++ standard ++ extended ++ payload of the units checked here',
+    "outside": 'whole-message writer for string arguments and for two or more arguments / slices (units only: the string writer sizes its buffer from a length inside an enum, which makes the allocation size symbolic; two-slice payloads give a CBMC counterexample that does not reproduce natively)',
     "assumptions": COMMON_ASSUME + ['std::fmt::format stubbed (messages not compared)', 'core::str::from_utf8 replaced by a byte-wise model checked against std (c19_utf8_model_vs_std)', 'forward_to_next_storage_header replaced by its specification (first occurrence) in whole-message storage-mode harnesses; the real function is checked against that specification in C06', 'ids, names, units and string contents are literals in whole-message harnesses (whether a byte is NUL is control for the parser); arbitrary contents are decided in C19 / c02d'],
     "trusted_base": ['reference encoder / decoder in kani/src (refcodec.rs, shapes.rs, c02d.rs)'],
     "harnesses": [H("c02w::" + n, "quick", 900) for n in _w] + [H("c02d::" + n, "quick", 900, allow_unsat_covers=["empty input incomplete", "15 bytes incomplete", "len == 9"]) for n in _d]
@@ -243,6 +249,8 @@ PROPS["C02"] = {
                     "c19::c19_ids_standard_header_ecu", "gen_c04::c04_verbose_u16_be_nofilter_p0", "gen_c04::c04_verbose_u16_be_nofilter_m1",
                     "gen_c04::c04_nonverbose_min_nofilter_p4", "gen_c04::c04_nonverbose_min_nofilter_m1", "gen_c04::c04_control_storage_nofilter_p1"]]
                  + [H("c02w::" + n, "thorough", 900) for n in _wt]
+                 + [H("c02w::" + n, "quick" if n in _wmsg_q else "thorough", 900, what="Message::as_bytes == reference encoding of the whole message") for n in _wmsg]
+                 + [H(e["name"], "thorough", 900, what="Message::as_bytes == reference encoding, one argument layout") for e in _cat["wm_arg"]]
                  + [H("c02w::c02w_message_whole_nonverbose_min", "thorough", 1800), H("c02w::c02w_payload_verbose_concat", "thorough", 3600, mem_gb=30)]
                  + [H("c14::c14_typeinfo_all_words", "quick", 300, what="accept/reject and decoded description for all 2^32 type-info words (shared with C14)")]
                  + [H(e["name"], e["tier"], 900) for e in _cat["w_arg"]],
@@ -257,7 +265,8 @@ PROPS["C04"] = {
     "outside": 'length values between the classes; shapes outside the catalogue',
     "assumptions": COMMON_ASSUME + ['std::fmt::format stubbed (messages not compared)', 'core::str::from_utf8 replaced by a byte-wise model checked against std (c19_utf8_model_vs_std)', 'forward_to_next_storage_header replaced by its specification (first occurrence) in whole-message storage-mode harnesses; the real function is checked against that specification in C06', 'ids, names, units and string contents are literals in whole-message harnesses (whether a byte is NUL is control for the parser); arbitrary contents are decided in C19 / c02d', 'RandomState::new replaced by fixed keys (empty HashSet construction)'],
     "trusted_base": ['reference verdict computed by gen_catalogue.py from the layout'],
-    "harnesses": [H("c04::c04_skipper_storage_shapes", "quick", 900), H("c04::c04_validated_payload_length_all", "quick", 300)]
+    "harnesses": [H("c04::c04_skipper_storage_shapes", "quick", 900), H("c04::c04_validated_payload_length_all", "quick", 300),
+                  H("c06::c06_junk_3_filtered_out", "quick", 900, what="junk in front of the storage header + a filter that drops the message: remainder still at the declared end")]
                  + [H(e["name"], e["tier"], 900) for e in _cat["c04"]],
 }
 PROPS["C05"] = {
@@ -286,13 +295,15 @@ PROPS["C07"] = {
     "assumptions": COMMON_ASSUME + ['std::fmt::format stubbed (messages not compared)', 'core::str::from_utf8 replaced by a byte-wise model checked against std (c19_utf8_model_vs_std)'],
     "trusted_base": ['std::io::BufReader, Read::read_exact'],
     "harnesses": [H("c07::" + n, "quick", 1500) for n in ["c07_any_stream_no_storage_6", "c07_first_of_two_messages_any_schedule",
-                  "c07_read_message_equals_slice_parse", "c07_new_reserves_largest_declarable_message"]]
+                  "c07_read_message_equals_slice_parse"]]
+                 + [H("c07::c07_new_reserves_largest_declarable_message", "quick", 300, fallback_playback=[[[0]], [[1]]],
+                      what="DltMessageReader::new reserves storage header + 65535 bytes (both storage modes)")]
                  + [H("c07::c07_truncated_tail_any_schedule", "thorough", 3600, mem_gb=30), H("c07::c07_two_messages_any_schedule", "thorough", 5400, mem_gb=40), H("c07::c07_default_capacity_any_declared_length", "thorough", 5400, mem_gb=40)],
 }
 
 PROPS["C15"] = {
     "level": "model_checking",
-    "level_text": 'Message::new is decided per payload kind (non-verbose, control, verbose, network trace) x optional fields for all data: recorded payload length == reference payload size, byte_len == headers + payload, verbose flag and argument count as the payload kind requires, add_storage_header(Some(ts)) only adds the given time and the header ECU id (or the default id); Argument::valid is decided for every (bool/f32/f64 kind x 15 value variants); Argument::len == serialised length for every layout and both byte orders (gen_args::w_arg_*).',
+    "level_text": 'Message::new is decided per payload kind (non-verbose, control, verbose, network trace) x optional fields for all data: recorded payload length == reference payload size, byte_len == headers + payload, verbose flag and argument count as the payload kind requires, add_storage_header(Some(ts)) only adds the given time and the header ECU id (or the default id); Argument::valid is decided for every (bool/f32/f64 kind x 15 value variants); Argument::len == serialised length for every layout and both byte orders (gen_args::w_arg_*); Message::byte_len == length of Message::as_bytes without storage header for whole messages (c02w_msg_*, gen_args::wm_arg_*).',
     "level_note": "'parses back to an equal message' composes with P(shape) of C01 and W(shape) of C02; add_storage_header(None) reads the system clock (FFI): outside. Message::new with a VERBOSE payload does not finish (15 min for one u16 argument): the argument vector sits inside the PayloadContent enum, whose payload data loses its concrete values when the configuration is moved into the constructor, so the writer loop runs over a symbolic number of arguments; for verbose payloads only the per-argument equation len == serialised length is decided (w_arg_*).",
     "functions": ['Message::new', 'Message::byte_len', 'Message::add_storage_header', 'StandardHeader::overall_length', 'PayloadContent::{is_verbose, arg_count, as_bytes}', 'Argument::valid', 'Argument::len'],
     "bounds": '7 configuration shapes, <= 2 arguments / slices',
@@ -301,24 +312,26 @@ PROPS["C15"] = {
     "trusted_base": [],
     "harnesses": [H("c15::" + n, "quick", 900) for n in ["c15_new_nonverbose_noext", "c15_new_nonverbose_ext_be", "c15_new_control",
                   "c15_new_nettrace_le", "c15_new_nettrace_be", "c15_new_verbose_empty", "c15_new_nettrace_empty", "c15_valid_rejects_mismatched_values"]]
-                 + [H(e["name"], e["tier"], 900, what="Argument::len == serialised length (and bytes == reference)") for e in _cat["w_arg"]],
+                 + [H(e["name"], e["tier"], 900, what="Argument::len == serialised length (and bytes == reference)") for e in _cat["w_arg"]]
+                 + [H("c02w::" + n, "quick", 900, what="byte_len == length of Message::as_bytes without storage header (whole message)") for n in _wmsg_q]
+                 + [H(e["name"], e["tier"], 900, what="byte_len == serialised length, Message::as_bytes == reference, one argument layout") for e in _cat["wm_arg"]],
 }
 
 _c16_wp_quick = ["c02w::c02w_payload_nonverbose_control", "c02w::c02w_payload_nettrace_le", "c02w::c02w_payload_nettrace_be", "c02w::c02w_extended_header_id4",
-                 "c02w::c02w_standard_header_c7", "c02w::c02w_storage_header_id4", "c14::c14_typeinfo_all_words", "c14::c14_msin_via_extended_header_parse",
+                 "c02w::c02w_standard_header_c7", "c02w::c02w_storage_header_id4", "c02w::c02w_msg_control_le", "c02w::c02w_msg_nettrace_be", "c02w::c02w_msg_verbose_bool_le", "c14::c14_typeinfo_all_words", "c14::c14_msin_via_extended_header_parse",
                  "c14::c14_msin_via_extended_header_write", "c01::c01_p_control_le", "c01::c01_p_nettrace_be", "c01::c01_p_nonverbose_ext_storage_be",
                  "gen_args::w_arg_bool_v", "gen_args::p_arg_bool_v", "gen_args::w_arg_u16", "gen_args::p_arg_u16", "gen_args::w_arg_string_v", "gen_args::p_arg_string_v",
                  "gen_args::w_arg_raw", "gen_args::p_arg_raw", "gen_args::w_arg_ufix32_v", "gen_args::p_arg_ufix32_v", "gen_args::w_arg_f32", "gen_args::p_arg_f32"]
 PROPS["C16"] = {
     "level": "model_checking",
-    "level_text": 'Compositional, every part decided by the solver in this check: (W) the writer units emit exactly the canonical reference encoding of every message value the parser can produce - including the non-canonical values it normalises into (ControlType::Unknown(n) for every service id, every MSIN code, reserved string codings) - and (P) the parser maps the canonical encoding back to that value, for all data; (D) non-canonical encodings the parser accepts (bool with TYLE 1 / 15, reserved and STRU type-info bits, FIXP on kinds that cannot be fixed point, id bytes after the first NUL) parse to the same message value as their canonical form; type-info words and MSIN codes are decided for all 2^32 / 2^8 codes. W and P and D give bytes -> message -> bytes -> message stability by substitution.',
+    "level_text": 'Compositional, every part decided by the solver in this check: (W) the writer units emit exactly the canonical reference encoding of every message value the parser can produce - including the non-canonical values it normalises into (ControlType::Unknown(n) for every service id, every MSIN code, reserved string codings) - and (P) the parser maps the canonical encoding back to that value, for all data; (D) non-canonical encodings the parser accepts (bool with TYLE 1 / 15, reserved and STRU type-info bits, FIXP on kinds that cannot be fixed point, id bytes after the first NUL, name / unit length fields of 0) parse to the same message value as their canonical form; type-info words and MSIN codes are decided for all 2^32 / 2^8 codes. W and P and D give bytes -> message -> bytes -> message stability by substitution.',
     "level_note": 'No single bytes -> message -> bytes -> message query: re-serialising a PARSED message inside one harness (c16_rt_*, kept in the source) exceeds memory because the parsed payload loses its concrete lengths when moved through Result / enum values, which makes the writer allocation sizes symbolic (measured: > 16 GB, 8 min).',
     "functions": ['parse::dlt_message', 'TypeInfo::try_from', 'parse::parse_ecu_id', 'PayloadContent::as_bytes', 'ExtendedHeader::as_bytes', 'StandardHeader::as_bytes', 'StorageHeader::as_bytes', 'Argument::as_bytes::<BE|LE>', 'ControlType::value'],
-    "bounds": '5 dialect variants on 4 shapes; W / P: payload kinds, header units and 6 (quick) / 80 (thorough) argument layouts of the catalogue',
+    "bounds": '6 dialect variants on 5 shapes; W / P: payload kinds, header units and 6 (quick) / 80 (thorough) argument layouts of the catalogue',
     "outside": 'dialect variants outside the list; shapes outside the catalogue',
     "assumptions": COMMON_ASSUME + ['std::fmt::format stubbed (messages not compared)', 'core::str::from_utf8 replaced by a byte-wise model checked against std (c19_utf8_model_vs_std)', 'ids, names, units and string contents are literals in whole-message harnesses (whether a byte is NUL is control for the parser); arbitrary contents are decided in C19 / c02d', 'forward_to_next_storage_header replaced by its specification (first occurrence) in whole-message storage-mode harnesses; the real function is checked against that specification in C06'],
     "trusted_base": ['reference encoder kani/src/refcodec.rs + shapes.rs (reading of the AUTOSAR layout)'],
-    "harnesses": [H("c16::" + n, "quick", 900) for n in ["c16_bool_tyle_1", "c16_bool_tyle_15", "c16_u32_reserved_bits", "c16_raw_fixp_flag", "c16_id_bytes_after_nul"]]
+    "harnesses": [H("c16::" + n, "quick", 900) for n in ["c16_bool_tyle_1", "c16_bool_tyle_15", "c16_u32_reserved_bits", "c16_raw_fixp_flag", "c16_id_bytes_after_nul", "c16_name_unit_length_zero"]]
                  + [H(n, "quick", 900, what="W / P half of the composition (shared with C01 / C02 / C14)") for n in _c16_wp_quick]
                  + [H(e["name"], "thorough", 900) for e in _cat["w_arg"] + _cat["p_arg"] if e["name"] not in _c16_wp_quick]
                  + [H("c02w::" + n, "thorough", 900) for n in _wq + _wt if "c02w::" + n not in _c16_wp_quick]
@@ -349,12 +362,12 @@ PROPS["C03"] = {
     "assumptions": COMMON_ASSUME + ['std::fmt::format stubbed (messages not compared)', 'core::str::from_utf8 replaced by a byte-wise model checked against std (c19_utf8_model_vs_std)', 'forward_to_next_storage_header replaced by its specification (first occurrence) in whole-message storage-mode harnesses; the real function is checked against that specification in C06', 'ids, names, units and string contents are literals in whole-message harnesses (whether a byte is NUL is control for the parser); arbitrary contents are decided in C19 / c02d'],
     "trusted_base": [],
     "harnesses": [H("c03::" + n, "quick", 900, mem_checks=True) for n in ["c03_skip_storage_header_any_bytes", "c03_consume_msg_any_htyp_len_full",
-                  "c03_consume_msg_any_htyp_len_truncated"]]
+                  "c03_consume_msg_any_htyp_len_truncated", "c03_message_as_bytes_largest_declared_length"]]
                  # the same harnesses as in C02 / C04 / C05 / C06 / C13 / C19, re-run here with CBMC's bounds and pointer checks ON
                  + [H(n, "quick", 1200, mem_checks=True, what="re-run with memory-safety checks") for n in [
                     "c19::c19_zstring_model_utf8", "c06::c06_search_real_memmem_8", "c13::c13_u16_raw", "c13::c13_raw", "c13::c13_bool", "c13::c13_string_len2_be",
                     "gen_c04::c04_verbose_u16_be_nofilter_m1", "gen_c04::c04_verbose_u16_be_nofilter_p1", "gen_c04::c04_nonverbose_min_nofilter_m2",
-                    "gen_c04::c04_control_storage_nofilter_p4", "gen_c05::c05_nonverbose_min_5_6"]]
+                    "gen_c04::c04_control_storage_nofilter_p4", "gen_c04::c04_control_storage_dropall_p4", "gen_c05::c05_nonverbose_min_5_6"]]
                  + [H(n, "thorough", 2400, mem_checks=True, what="re-run with memory-safety checks") for n in [
                     "c02d::c02d_standard_header_all_bytes", "c02d::c02d_extended_header_all_bytes", "c02d::c02d_storage_header_fields",
                     "c19::c19_zstring_std_utf8", "c13::c13_string_u32", "c13::c13_u128"]],
